@@ -1,5 +1,5 @@
 """Property -> rules table."""
-import lattice_rules, agg_rules, lib_rules, byods_rules, gen_driver, witness_rules
+import lattice_rules, agg_rules, lib_rules, byods_rules, gen_driver, witness_rules, macro_rules
 
 
 def run_C16(ctx, rep):
@@ -50,7 +50,7 @@ def run_C12(ctx, rep):
 
 def run_C05(ctx, rep):
     lib_rules.check_L1(ctx, rep)
-    gen_driver.run_gen(ctx, rep, ['G1G3', 'USES'], floors={'G1': 300, 'G1.lat': 20, 'G1.uses': 800})
+    gen_driver.run_gen(ctx, rep, ['G1G3', 'USES', 'G5'], floors={'G1': 300, 'G1.lat': 20, 'G1.uses': 800, 'G5': 250})
 
 
 def run_C02(ctx, rep):
@@ -65,7 +65,7 @@ def run_C03(ctx, rep):
 
 
 def run_C13(ctx, rep):
-    gen_driver.run_gen(ctx, rep, ['UI', 'G6', 'G5', 'G8'], floors={'G4.ui': 500, 'G3.ui': 500, 'G6': 15, 'G5': 250, 'G8': 60})
+    gen_driver.run_gen(ctx, rep, ['UI', 'G6', 'G5', 'G8', 'G1G3'], floors={'G4.ui': 500, 'G3.ui': 500, 'G6': 15, 'G5': 250, 'G8': 60, 'G1': 300})
 
 
 def run_C14(ctx, rep):
@@ -96,12 +96,14 @@ def run_C07(ctx, rep):
     sugar = ('t_neg_sugar', 't_wild_sugar', 't_pat_sugar', 't_rep_sugar', 't_rep2_sugar', 't_mh_sugar', 't_disj_sugar')
     gen_driver.run_twins(ctx, rep, lambda n, k: n.replace('_par', '') in sugar, floors={'T.C': 8, 'T.L': 4})
     gen_driver.run_tv(ctx, rep, only_tags=['twin', 'repeated', 'wild', 'patarg', 'multihead', 'facts', 'consts', 'neg'], floors={'R1': 60})
+    macro_rules.check_M1(ctx, rep)
 
 
 def run_C08(ctx, rep):
     gen_driver.run_twins(ctx, rep, lambda n, k: n.replace('_par', '') in ('t_mac_sugar',), floors={'T.L': 2})
     gen_driver.run_tv(ctx, rep, only_tags=['twin'], floors={'R1': 40})
     witness_rules.run_witnesses(ctx, rep, ctx.tier, kinds=('macro_self_rec', 'macro_mutual_rec', 'macro_head_rec'))
+    macro_rules.check_M2(ctx, rep)
 
 
 def run_C09(ctx, rep):
@@ -197,7 +199,8 @@ PROPS = {
                        'index of the same relation, itself inside !contains_key(total) && !contains_key(delta) for the same row, and the '
                        'appended tuple is that row; lattice rows are created only after the key was looked up in new, delta and total of the '
                        'key index (parallel: under the key-hashed mutex after re-checking new); inventory of every use of a relation row store '
-                       '(no removal / overwrite); L1: the library operation is one critical section. Holds for all inputs and schedules '
+                       '(no removal / overwrite); G5: the full index that deduplicates is shifted unconditionally and stored back from its total '
+                       'version (it never loses entries); L1: the library operation is one critical section. Holds for all inputs and schedules '
                        'because no input or schedule is looked at.',
         'assumptions': ['hashbrown / dashmap entry APIs are atomic per shard', 'Hash/Eq of user column types are consistent'],
         'rule_text': 'one instance = one append site / one use of a row store / one library implementation',
@@ -227,7 +230,8 @@ PROPS = {
         'explanation': 're-run obligations over corpus + shipped programs: run() starts by rebuilding every index from every stored row (G8, '
                        'G3.ui full scan, unconditional), into indices that are reset or written by an idempotent writer (G4.ui), every index field '
                        'is in the writable state at that point on the first and on later calls (G6 simulated across two runs), every stored fact '
-                       'of a head relation becomes delta of its stratum (G5 take(field) form).',
+                       'of a head relation becomes delta of its stratum (G5 take(field) form) and every head insertion is deduplicated against '
+                       'delta as well as total (G1), so re-evaluating all rules over the stored facts adds nothing.',
         'assumptions': ['users do not modify index fields (private)'],
         'rule_text': 'one instance = one (index field, rebuild site) / one typestate requirement / one stratum',
     },
